@@ -4,12 +4,19 @@
   tables are compared by `decide` in Arrai/Proofs/C03.lean on every run.
 
   `nonfreshNoted`: every site whose destination is NOT storage allocated in the same function
-  (classes param / field / local), each with a note: `model: …` = the heap model covers it (and how),
-  `n/a: …` = reviewed, not the payload of a value.  On the tree as found this list had two more rows —
-  ("rel/value_set_str.go", "String.with", "append s.s", "param") and
-  ("rel/value_set_bytes.go", "Bytes.with", "append b.b", "param") — the defect repaired by
-  "fix: String.with and Bytes.with copy before appending at the end".
+  (classes param / field / local / call), each with a note: `.model …` = the heap model covers it (and how),
+  `.na …` = reviewed, not the payload of a value.  On the tree as found this list had three more rows —
+  ("rel/value_set_str.go", "String.with", "append s.s", "param"),
+  ("rel/value_set_bytes.go", "Bytes.with", "append b.b", "param") — repaired by
+  "fix: String.with and Bytes.with copy before appending at the end" — and
+  ("rel/value_set_rel.go", "Relation.Join", "append leftOutput", "param") — a relation's heading is part of the value;
+  repaired by the C04 fix (theorem rel_alias_heading_before_repair is its witness in the heap model).
   `summary`: number of write sites per file and class.
+  `callees`: for every function whose RESULT a write site's destination comes from (class `call`, or a `local` defined
+  by a call), plus the slice-returning helpers the heap model relies on and the accessors that hand out a value's own
+  slice: the classification of every return statement ("fresh" = all of them return make / composite literal /
+  append(make…) / a local defined only so).  `assumedFresh`: the ones whose freshness the model (and the safety of a
+  write site) depends on.
 -/
 namespace Arrai.C03.Expected
 
@@ -70,17 +77,17 @@ def nonfreshNoted : List ((String × String × String × String) × Cover) := [
     .na "sort.Interface over slices produced by OrderedValues (fresh per call)"),
   (("rel/value_set_generic.go", "ValueList.Swap", "store vl[j]", "param"),
     .na "sort.Interface over slices produced by OrderedValues (fresh per call)"),
-  (("rel/value_set_relpos.go", "positionalRelation.JoinKeepEverything", "append leftVal.project(leftOutput).values()", "local"),
-    .model "Op.join via the builder" "`values()` returns a slice made in that call (make/Values{}), so the append target is fresh"),
+  (("rel/value_set_relpos.go", "positionalRelation.JoinKeepEverything", "append leftVal.project(leftOutput).values()", "call"),
+    .model "Rel.Impl.keepEverything" "the append target is the result of `projectedValues.values()`: safe only because that callee returns a slice of its own on every path — see `callees` / `callees_assumed_fresh` (a `values()` that returns `pv.v` makes this append write into a shared row: theorem rel_alias_rows_if_values_returns_row)"),
   (("rel/value_tuple.go", "NewTuple", "store attrs[0]", "param"),
     .na "swaps the two Attr of the caller's variadic argument list; attrs are copied into the tuple builder"),
   (("rel/value_tuple.go", "NewTuple", "store attrs[1]", "param"),
     .na "swaps the two Attr of the caller's variadic argument list; attrs are copied into the tuple builder"),
   (("rel/value_tuple.go", "TupleOrderedNames", "append t.names", "param"),
     .na "memoised sorted name list inside a GenericTuple (sync.Once); does not change what the tuple denotes"),
-  (("syntax/std_seq_array_helper.go", "arraySub", "append append(result,newArray.Values()...)", "local"),
+  (("syntax/std_seq_array_helper.go", "arraySub", "append append(result,newArray.Values()...)", "call"),
     .model "Op.sub" "`result` is make([]Value, 0, n) in the same function; the inner append(result, …) is the argument of the outer one"),
-  (("syntax/std_seq_array_helper.go", "arraySub", "append append(result,subjectVals[:i]...)", "local"),
+  (("syntax/std_seq_array_helper.go", "arraySub", "append append(result,subjectVals[:i]...)", "call"),
     .model "Op.sub" "`result` is make([]Value, 0, n) in the same function; the inner append(result, …) is the argument of the outer one")
 ]
 
@@ -124,17 +131,46 @@ def summary : List (String × Nat) := [
   ("rel/value_set_generic.go fresh", 1),
   ("rel/value_set_generic.go param", 2),
   ("rel/value_set_rel.go fresh", 14),
+  ("rel/value_set_relpos.go call", 1),
   ("rel/value_set_relpos.go fresh", 3),
-  ("rel/value_set_relpos.go local", 1),
   ("rel/value_set_str.go fresh", 9),
   ("rel/value_set_union.go fresh", 2),
   ("rel/value_tuple.go fresh", 6),
   ("rel/value_tuple.go param", 3),
   ("rel/value_values.go fresh", 5),
   ("syntax/std_seq.go fresh", 3),
+  ("syntax/std_seq_array_helper.go call", 2),
   ("syntax/std_seq_array_helper.go fresh", 9),
-  ("syntax/std_seq_array_helper.go local", 2),
   ("syntax/std_seq_bytes_helper.go fresh", 3)
 ]
+
+/-- (file, function, verdict): "fresh", or `class:expr` for every return statement -/
+def callees : List (String × String × String) := [
+  ("rel/value_set_array.go", "Array.Values", "param:a.values"),
+  ("rel/value_set_array.go", "Array.clone", "param:a"),
+  ("rel/value_set_array.go", "asArray", "fresh"),
+  ("rel/value_set_bytes.go", "Bytes.Bytes", "param:b.b"),
+  ("rel/value_set_bytes.go", "asBytes", "fresh"),
+  ("rel/value_set_rel.go", "Relation.AttrsName", "param:r.attrs"),
+  ("rel/value_set_rel.go", "Relation.getIndices", "fresh"),
+  ("rel/value_set_rel.go", "Relation.tupleToValues", "fresh"),
+  ("rel/value_set_rel.go", "RelationValuesEnumerator.Values", "call:e.i.Values().project(e.p).values()"),
+  ("rel/value_set_relpos.go", "positionalRelationValuesEnumerator.Values", "local:e.i.Value().(Values)"),
+  ("rel/value_set_str.go", "asString", "fresh"),
+  ("rel/value_tuple.go", "NamesSlice.GetSorted", "fresh"),
+  ("rel/value_tuple.go", "NamesSlice.intersect", "fresh"),
+  ("rel/value_tuple.go", "NamesSlice.minus", "fresh"),
+  ("rel/value_values.go", "projectedValues.values", "fresh"),
+  ("rel/value_values.go", "valueProjector.compose", "fresh"),
+  ("rel/value_values.go", "valueProjector.mapper", "local:func(elinterface{})interface{}{returnel.; local:func(elinterface{})interface{}{v:=make(V")
+]
+
+/-- callees that MUST return storage of their own: a write site (`JoinKeepEverything`'s append onto `values()`) or the
+heap model (`Rel.Impl.projValues`, `allocNames`, `tupleToValues`, `asSeq`) relies on it.  `Array.clone` returns its
+receiver copy with `values` replaced by a slice made in the call (classified `param:a` syntactically): covered by
+`Impl.clone` and listed in `callees` so that any change shows. -/
+def assumedFresh : List String :=
+  ["projectedValues.values", "NamesSlice.minus", "NamesSlice.intersect", "NamesSlice.GetSorted",
+   "valueProjector.compose", "Relation.getIndices", "Relation.tupleToValues", "asString", "asBytes", "asArray"]
 
 end Arrai.C03.Expected
